@@ -36,6 +36,9 @@ def _dispatch(mod, prop, ctx, case):
     if isinstance(case, dict) and case.get("kind") == "stateful":
         from props import _stateful
         return _stateful.run(prop, ctx, case)
+    if isinstance(case, dict) and case.get("kind") == "large":
+        from props import _large
+        return _large.run(prop, ctx, case)
     return mod.run_case(ctx, case)
 
 
@@ -48,14 +51,16 @@ def _stateful_rule(prop):
     if prop in _battery.BATTERIES:
         bat = ("  PLUS correspondence batteries (harness/batteries/%s; histogram key 'battery:*'): stand-alone differential runs of the compiled "
                "model against the library on their own generated inputs" % ", ".join(b[0] for b in _battery.BATTERIES[prop]))
+    bat += ("  PLUS large-input cases (harness/props/_large.py, histogram key 'large'): long modes (33..200), ranks 16..32, 9..13 modes, index arrays of "
+            "65..300 entries, tall matrices, large batches against dense oracles (implementation only, no model side)")
     return (bat + "  PLUS sequence cases (harness/props/_stateful.py, histogram key 'stateful'): short histories on the same Python objects — "
             "re-query after in-place edits, caller-owned argument objects reused, results held across later calls; oracles: dense arrays "
             "and fresh-copy equivalence (sampling of the implementation only, no model side)")
 
 
 def _all_cases(mod, prop, rng, tier):
-    from props import _stateful, _battery
-    return _battery.cases(prop, rng, tier) + list(mod.cases(rng, tier)) + _stateful.cases(prop, rng, tier)
+    from props import _stateful, _battery, _large
+    return _battery.cases(prop, rng, tier) + _large.cases(prop, rng, tier) + list(mod.cases(rng, tier)) + _stateful.cases(prop, rng, tier)
 
 
 def run_cases(prop, tier, seed, cases, use_model, search_only=False, workers=None):
